@@ -205,7 +205,7 @@ class _BurstReader:
 
 # ===================================================================================================== workload
 class _Workload:
-    def __init__(self, world: World, name: str, *, max_extra_senders: int = 4, max_packets: int = 4, timed: bool = False):
+    def __init__(self, world: World, name: str, *, max_extra_senders: int = 4, max_packets: int = 4, timed: bool = False, cancels: bool = False):
         self.world = world
         self.name = name
         # a third of the runs are fault-free baselines (profile 0): roomy link, greedy peer, no injected socket behaviour
@@ -238,6 +238,11 @@ class _Workload:
         self.timeouts: dict[tuple[int, int], float] = {}
         self.touched: set[str] = set()  # names of threads whose current call reached the socket's send
         self.stream_broken_by_timeout = False
+        # FairLock harnesses: up to 3 task.cancel() on a sender that is QUEUED on the send lock (never on the owner): the
+        # cancelled call may end with CancelledError, its packet must be wholly absent, nobody else may notice
+        self.ncancel = (0, 1, 2, 3)[world.choose("ncancel", 4)] if cancels and not self.baseline else 0
+        self.locks: list[Any] = []  # _TrackingFairLock objects whose waiters may be cancelled
+        self.cancel_targets: set[Any] = set()
         if timed and not self.baseline:
             for lst in self.plan:
                 for _, pk in lst:
@@ -287,6 +292,14 @@ class _Workload:
             it = self.world.counters["loop_iterations"]
             try:
                 await send_packet(packet)
+            except asyncio.CancelledError:
+                me = asyncio.current_task()
+                if me not in self.cancel_targets:
+                    raise
+                self.cancel_targets.discard(me)
+                me.uncancel()  # type: ignore[union-attr]
+                self.calls.append((packet[0], packet[1], "cancelled@lock"))
+                self.world.log("send_cancelled", self.name, packet[0], packet[1])
             except Exception as exc:  # the property: every call succeeds
                 self.calls.append((packet[0], packet[1], type(exc).__name__))
                 self.world.log("send_raised", self.name, packet[0], packet[1], type(exc).__name__)
@@ -371,14 +384,42 @@ class _Workload:
     async def run_senders(self, send_packet: Callable[[Any], Any]) -> None:
         loop = asyncio.get_running_loop()
         tasks = [loop.create_task(self.sender(i, send_packet), name=f"c12-sender{i + 1}") for i in range(self.nsenders)]
-        await asyncio.gather(*tasks)
+        killer = loop.create_task(self.canceller(tasks), name="c12-canceller") if self.ncancel else None
+        try:
+            await asyncio.gather(*tasks)
+        finally:
+            if killer is not None:
+                killer.cancel()
+
+    async def canceller(self, tasks: list[Any]) -> None:
+        """cancel senders that are queued on a tracked FairLock while somebody else owns it"""
+        w = self.world
+        left = self.ncancel
+        polls = 0
+        while left and not all(t.done() for t in tasks):
+            await asyncio.sleep(TICK * (1 + w.choose("cancel.gap", 3)) / 2)
+            polls += 1
+            if polls > 20000:
+                raise StepCap("C12 canceller: more than 20000 polls")
+            cands = sorted((t for lk in self.locks if lk.locked() for t in lk.waiting if t in tasks and t not in self.cancel_targets), key=lambda t: t.get_name())
+            if not cands or not w.chance("cancel.now", 2, 3):
+                continue
+            victim = cands[w.choose("cancel.victim", len(cands))]
+            queued = sum(len(lk.waiting) for lk in self.locks)
+            self.cancel_targets.add(victim)
+            victim.cancel()
+            left -= 1
+            w.fault("cancel_at_time")
+            w.probe("cancelled-a-queued-sender:%d-queued" % min(queued, 3))
+            w.log("cancel", self.name, victim.get_name())
 
 
 def _check_calls(wl: _Workload) -> tuple[list[tuple[int, int, int]], str]:
     planned = [p for lst in wl.plan for _, p in lst]
     ctx = f"harness={wl.name} plan={wl.world.notes} calls={wl.calls}"
-    # a call made with a timeout may end in TimeoutError (recorded as timeout@lock / timeout@send); nothing else may fail
-    bad = [c for c in wl.calls if c[2] != "ok" and not c[2].startswith("timeout@")]
+    # a call made with a timeout may end in TimeoutError (timeout@lock / timeout@send), a call cancelled by the harness while it
+    # was queued on the lock in CancelledError (cancelled@lock); nothing else may fail
+    bad = [c for c in wl.calls if c[2] != "ok" and not c[2].startswith("timeout@") and c[2] != "cancelled@lock"]
     if bad:
         raise Violation("every-call-succeeds", f"send_packet raised for (sender, seq, exception) {bad}; {ctx}", key=f"C12/{wl.name}/call-raised/{bad[0][2]}")
     if len(wl.calls) != len(planned):
@@ -452,11 +493,41 @@ def _finish(world: World, wl: _Workload, box: dict[str, Any], amain: Callable[[]
     _check(wl, reader)
 
 
+# ===================================================================================================== FairLock plumbing
+class _TrackingFairLock(FairLock):
+    """the repo's FairLock (all logic inherited); only records which tasks are currently inside acquire()"""
+
+    def __init__(self, backend: Any):
+        super().__init__(backend)
+        self.waiting: set[Any] = set()
+
+    async def acquire(self) -> None:
+        task = asyncio.current_task()
+        self.waiting.add(task)
+        try:
+            await super().acquire()
+        finally:
+            self.waiting.discard(task)
+
+
+class _FairLockBackend(SimAsyncIOBackend):
+    """what a backend that keeps the ABC's default create_fair_lock() gives its clients and servers"""
+
+    def __init__(self, net: SimNet, wl: "_Workload"):
+        super().__init__(net)
+        self._wl = wl
+
+    def create_fair_lock(self) -> Any:
+        lock = _TrackingFairLock(self)
+        self._wl.locks.append(lock)
+        return lock
+
+
 # ===================================================================================================== client harness
-def _h_client(world: World) -> None:
-    wl = _Workload(world, "client")
+def _h_client(world: World, fair: bool = False) -> None:
+    wl = _Workload(world, "client-fairlock" if fair else "client", cancels=fair)
     net = SimNet(world)
-    backend = SimAsyncIOBackend(net)
+    backend = _FairLockBackend(net, wl) if fair else SimAsyncIOBackend(net)
     lib, psock = net.socketpair(capacity_ab=wl.capacity, delivery_ab=wl.delivery)
     wl.configure(net, lib)
     box: dict[str, Any] = {"reader": _BurstReader(world, psock, wl.profile, wl.capacity)}
@@ -480,7 +551,7 @@ def _h_fairlock(world: World) -> None:
     """the clients' pattern (send lock around endpoint.send_packet) with the repo's own FairLock, which the asyncio backend
     does not use by itself (create_fair_lock() returns asyncio.Lock): a lock that lets two senders in shows up as
     BusyResourceError from the endpoint's guard, or as interleaved bytes"""
-    wl = _Workload(world, "endpoint-fairlock")
+    wl = _Workload(world, "endpoint-fairlock", cancels=True)
     net = SimNet(world)
     backend = SimAsyncIOBackend(net)
     lib, psock = net.socketpair(capacity_ab=wl.capacity, delivery_ab=wl.delivery)
@@ -492,7 +563,8 @@ def _h_fairlock(world: World) -> None:
         if not wl.baseline:
             swarm_selector(world, loop.sim_selector)  # type: ignore[attr-defined]
         endpoint: Any = AsyncStreamEndpoint(await backend.wrap_stream_socket(lib), wl.protocol, max_recv_size=4096)
-        lock = FairLock(backend)
+        lock = _TrackingFairLock(backend)
+        wl.locks.append(lock)
 
         async def send_packet(packet: Any) -> None:
             async with lock:
@@ -729,11 +801,11 @@ class _FanOutHandler(AsyncStreamRequestHandler):
         self.done.set()
 
 
-def _h_server(world: World) -> None:
-    wl = _Workload(world, "server")
+def _h_server(world: World, fair: bool = False) -> None:
+    wl = _Workload(world, "server-fairlock" if fair else "server", cancels=fair)
     where = world.choose("srv.where", 2)
     net = SimNet(world)
-    backend = SimAsyncIOBackend(net)
+    backend = _FairLockBackend(net, wl) if fair else SimAsyncIOBackend(net)
     handler = _FanOutHandler(wl, where)
     box: dict[str, Any] = {}
     async def amain() -> None:
@@ -768,6 +840,8 @@ HARNESSES = [
     Harness("client", _h_client, weight=1),
     Harness("server", _h_server, weight=1),
     Harness("endpoint-fairlock", _h_fairlock, weight=1),
+    Harness("client-fairlock", lambda w: _h_client(w, True), weight=1),
+    Harness("server-fairlock", lambda w: _h_server(w, True), weight=1),
     Harness("tls", _h_tls, weight=1),
     Harness("threads-tcp", _h_threads_tcp, weight=2),
     Harness("threads-udp", _h_threads_udp, weight=1),
